@@ -110,7 +110,8 @@ def classify(name, args, path_before, maxp, generic=False):
         for e in path_before:
             if e[0] == 'ARM' and isinstance(e[1], tuple) and e[1][0] == 'if' and e[2] == 'false':
                 c = strip(e[1][1])
-                if isinstance(c, tuple) and c[0] == 'bin' and c[1] == 'Gt' and sym.vstr(c[2]) == sym.vstr(size) and 'len(' in sym.vstr(c[3]):
+                nc = norm_cmp(c)        # `size > len`, however the comparison is spelled
+                if nc and nc[0] == 'Gt' and sym.vstr(nc[1]) == sym.vstr(size) and 'len(' in sym.vstr(nc[2]):
                     return 'bounded-by-input', sym.vstr(c)[:100]
     return 'tainted', '%s depends on %s' % (sym.vstr(size)[:80], sym.vstr(ta[0])[:60])
 
